@@ -124,6 +124,15 @@ def current_skeleton():
     return skeleton.module_skeleton(SOLVER(), [SST, IVP], SLICES + ZSLICES, elide)
 
 
+KERNEL_TRUSTED = [
+    "harness/py2coq_kernel.py (fail-closed whole-function translator of ivp_solver and of the mean-mode block of steady_state_transport_solver -> GenKernel.v): its reading of the arrays - numpy broadcasting over the mode axis is ELEMENTWISE, so the body is translated for ONE horizontal mode; an array of shape (nlvls, nxy) is the list of its nlvls slots for that mode and `a[lvl, ...] = x` updates slot lvl; profile arrays are lists indexed by node; np.diff(z)[i] = z[i+1] - z[i]; np.copy / rebinding of a name does not alias (the accepted fragment has no in-place operation on arrays over modes or nodes); range / enumerate / list comprehension / tuple assignment have their Python semantics",
+    "Bridge/KernelBridge.v: gen_ivp_solver = Solver.ivp and gen_mean_mode = Solver.mean_loop for ALL inputs (closed under the global context, hypothesis Laws O only for the layer-step / trapezoid algebra; the loop structure needs no field law)",
+]
+KERNEL_ASSUMPTIONS = [
+    "kernel bridge: the column has at least one node and every profile array has at least nz - 1 entries (Kz: nz for the mean mode) - otherwise Python raises IndexError (numba: reads out of bounds) and the model's truncating zip does not describe it; level entries are non-negative ints (a negative entry never matches a node index in the code; the model's level lists are lists of nat)",
+]
+
+
 def run_kernel(ctx):
     """whole-function tie of the kernel: ivp_solver and the mean-mode block -> GenKernel.v -> Bridge/KernelBridge.v
     (once per check: the skeleton elides exactly the statements this covers)"""
@@ -138,6 +147,12 @@ def run_kernel(ctx):
         return False
     ctx.cov["whole_functions_translated"] = ctx.cov.get("whole_functions_translated", []) + [
         "solver.ivp_solver (whole body, one mode)", "solver.steady_state_transport_solver: mean-mode block"]
+    for t in KERNEL_TRUSTED:
+        if t not in ctx.trusted:
+            ctx.trusted.append(t)
+    for t in KERNEL_ASSUMPTIONS:
+        if t not in ctx.assumptions:
+            ctx.assumptions.append(t)
     ctx._kernel_done = core.run_bridge(ctx, {"GenKernel.v": text}, ["KernelBridge.v"])
     return ctx._kernel_done
 
